@@ -7,11 +7,14 @@
    end     {id, rows}       all threads have finished; rows[t] = what thread t's query returned
    serial  {id, prog, rows, sv, lim} a query run alone: rows must be SerialRows(prog), the IN-subquery values
                             SubResult(prog); lim > 0: the statement carried LIMIT lim -- the first lim of those rows
-   hom     {id, f, sc, pos, fpos, sum_pos, sum_f, f_sum, groups, op, prices, lim, lgroups}
+   hom     {id, f, sc, pos, fpos, sum_pos, sum_f, f_sum, groups, op, prices, lim, lgroups, lastb}
                             one aggregate query family: per-row positions and f(position), sum(position),
                             sum(f(position)), f(sum(position)), per-group sums; judged with the Inventory operators;
                             lim > 0: lgroups = what the grouped statement returned with LIMIT lim (no ORDER BY): that
-                            many of the groups (which ones is not C12's business), each with the sums of ALL its rows
+                            many of the groups (which ones is not C12's business), each with the sums of ALL its rows;
+                            lastb = last(balance) of the ungrouped statement.  The selection (pos) may be made by a FROM
+                            clause with OPEN ON / CLOSE / CLEAR: the rows are then read on a connection without history,
+                            the sums on one with a history of statements (which postings the clause leaves: C13)
 
    A line the specification does not explain is reported as a JSON verdict and the run goes on (total verdicts);
    the last step prints a "consumed" verdict with the number of lines read, which the driver requires. *)
@@ -84,7 +87,9 @@ HomClauses(e) ==
                     /\ \A h \in 1..Len(e.lgroups) : h # g => Range(e.lgroups[h][1]) # Range(e.lgroups[g][1])
                     /\ InvOfSeq(e.lgroups[g][2]) = SumIdx(e.pos, Range(e.lgroups[g][1]))
                     /\ InvOfSeq(e.lgroups[g][3]) = SumIdx(e.fpos, Range(e.lgroups[g][1]))
-                    /\ InvOfSeq(e.lgroups[g][4]) = InvOfSeq(e.lgroups[g][3])
+                    /\ InvOfSeq(e.lgroups[g][4]) = InvOfSeq(e.lgroups[g][3]),
+          \* "... so the last balance equals sum(position) of the same selection" (last(balance) of the ungrouped statement)
+          e.pos = <<>> \/ InvOfSeq(e.lastb) = total
        >>
 FirstFalse(cl) == LET B == {i \in 1..Len(cl) : ~cl[i]} IN IF B = {} THEN 0 ELSE CHOOSE i \in B : \A j \in B : i <= j
 
